@@ -97,7 +97,7 @@ def _scramble(obj, depth=0, seen=None):
 
 def check_rows(case):
     name = case["cls"]
-    entry = R.ENTRIES[name]
+    entry = R.any_entry(name)
     facts = dict(cls=name)
     data = case["data"]
     X, y, w = R.materialize(data)
@@ -205,8 +205,8 @@ def check_rows(case):
 
 @st.composite
 def _cases(draw, name, tier="quick"):
-    entry = R.ENTRIES[name]
-    spec = R.spec_for(name, draw, draw(st.integers(0, 11)))
+    entry = R.any_entry(name)
+    spec = R.spec_for(name, draw, draw(st.integers(0, 11))) if name in R.ENTRIES else (draw(st.integers(0, 11)), entry.spec(draw))[1]
     if name == "ConstraintKMeans":
         spec["params"]["balanced_predictions"] = False       # the documented exception of the statement
     data = entry.data(draw)
@@ -229,4 +229,4 @@ def _clause(name):
                   thorough=6000 if border else (800 if heavy else 1500), quick_shards=8 if border else 1, thorough_shards=8 if border else 2, doc="batch vs sub-batches / permutations / single rows, repeat, pickle, clone_with_fitted_parameters on %s" % name)
 
 
-CLAUSES = [_clause(n) for n in sorted(R.ENTRIES)]
+CLAUSES = [_clause(n) for n in sorted(R.ENTRIES)] + [_clause("TransferTransformer:frozen")]
